@@ -27,7 +27,6 @@ fn expand_brace_expr_or_text(
     }
 }
 
-#[expect(clippy::cast_possible_truncation)]
 fn expand_brace_expr_member(bem: word::BraceExpressionMember) -> Box<dyn Iterator<Item = String>> {
     match bem {
         word::BraceExpressionMember::NumberSequence {
@@ -35,20 +34,19 @@ fn expand_brace_expr_member(bem: word::BraceExpressionMember) -> Box<dyn Iterato
             end,
             increment,
         } => {
-            let mut increment = increment.unsigned_abs() as usize;
-            if increment == 0 {
-                increment = 1;
-            }
+            // The sign of the increment is irrelevant; 0 means 1.
+            let increment = increment.unsigned_abs().max(1);
 
             if start <= end {
-                Box::new((start..=end).step_by(increment).map(|n| n.to_string()))
+                // A step beyond the address space cannot be taken even once.
+                let step = usize::try_from(increment).unwrap_or(usize::MAX);
+                Box::new((start..=end).step_by(step).map(|n| n.to_string()))
             } else {
-                // Iterate from start down to end by decrementing.
-                #[allow(clippy::cast_possible_wrap)]
-                let increment = increment as i64;
+                // Iterate from start down to end by decrementing; stop where the next
+                // value would fall below the end (or below what the type can hold).
                 Box::new(
                     std::iter::successors(Some(start), move |&n| {
-                        let next = n - increment;
+                        let next = i64::try_from(i128::from(n) - i128::from(increment)).ok()?;
                         (next >= end).then_some(next)
                     })
                     .map(|n| n.to_string()),
@@ -61,19 +59,19 @@ fn expand_brace_expr_member(bem: word::BraceExpressionMember) -> Box<dyn Iterato
             end,
             increment,
         } => {
-            let mut increment = increment.unsigned_abs() as usize;
-            if increment == 0 {
-                increment = 1;
-            }
+            // The sign of the increment is irrelevant; 0 means 1.
+            let increment = increment.unsigned_abs().max(1);
 
             if start <= end {
-                Box::new((start..=end).step_by(increment).map(|c| c.to_string()))
+                let step = usize::try_from(increment).unwrap_or(usize::MAX);
+                Box::new((start..=end).step_by(step).map(|c| c.to_string()))
             } else {
-                // Iterate from start down to end by decrementing.
-                let increment = increment as u32;
+                // Iterate from start down to end by decrementing; a step larger than the
+                // distance left (or than any code point) ends the sequence.
+                let step = u32::try_from(increment).unwrap_or(u32::MAX);
                 Box::new(
                     std::iter::successors(Some(start), move |&c| {
-                        let next = char::from_u32(c as u32 - increment)?;
+                        let next = char::from_u32(u32::from(c).checked_sub(step)?)?;
                         (next >= end).then_some(next)
                     })
                     .map(|c| c.to_string()),
